@@ -122,7 +122,15 @@ class Ctx:
         os.makedirs(WORK, exist_ok=True)
         for d in os.listdir(WORK):
             full = os.path.join(WORK, d)
-            if re.match(r"^C\d+\.\d+$", d) and os.path.isdir(full) and time.time() - os.path.getmtime(full) > 6 * 3600:
+            try:
+                age = time.time() - os.path.getmtime(full)
+            except OSError:
+                continue
+            if re.match(r"^C\d+(\.\d+)?$", d) and os.path.isdir(full) and age > 2 * 3600:
+                shutil.rmtree(full, ignore_errors=True)
+            # harness binaries / module files built for scratch repos (VERIF_REPO) that are gone
+            if re.match(r"^(bin|gomod)-[0-9a-f]{8}$", d) and age > 3 * 3600 \
+                    and d.split("-")[1] != hashlib.sha1(b"/repo").hexdigest()[:8]:
                 shutil.rmtree(full, ignore_errors=True)
         self.work = os.path.join(WORK, "%s.%d" % (prop, os.getpid()))
         shutil.rmtree(self.work, ignore_errors=True)
